@@ -16,6 +16,8 @@ where
     F::Output: Send + 'static,
 {
     fn execute(&self, future: F) {
+        #[cfg(feature = "verif-hooks")]
+        use crate::verif_hooks::shim as tokio;
         tokio::spawn(future);
     }
 }
